@@ -1,4 +1,5 @@
 import TinyFlux.Audit.Tool
 import TinyFlux.Props.C08
 import TinyFlux.Props.C08State
+import TinyFlux.Props.C08Witness
 #audit TinyFlux.Props.C08
